@@ -53,7 +53,7 @@ Section Link.
       flat_map f (list_prod l r) = flat_map (fun x => flat_map (fun y => f (x, y)) r) l.
   Proof.
     intros A B C f l r. induction l as [|x l IH]; cbn [list_prod flat_map]; [reflexivity|].
-    rewrite flat_map_app, IH. f_equal.
+    rewrite flat_map_app, IH. f_equal. clear IH.
     induction r as [|y r IHr]; cbn [map flat_map]; [reflexivity|]. rewrite IHr. reflexivity.
   Qed.
 
@@ -79,8 +79,8 @@ Section Link.
            | Track.DClassMissing => Some (inr (tid c, tid o, cls))     (* ClassMissing: an err entry *)
            end.
   Proof.
-    intros c cls only_baked o. unfold DistProto.visit, DistProto.dist_item. fold (i_tid c) (i_tid o).
-    unfold i_tid at 1 2. destruct (tid c =? tid o)%N; [reflexivity|].
+    intros c cls only_baked o. unfold DistProto.visit, DistProto.dist_item, i_tid.
+    destruct (tid c =? tid o)%N; [reflexivity|].
     rewrite p_distances_is_track_distances.
     destruct only_baked; cbn [negb andb].
     - destruct (i_baked o); cbn [is_ready negb]; try reflexivity.
